@@ -29,7 +29,7 @@ var lifeScenarios = []string{
 	"closenow-reader-blocked", "closenow-writer-blocked", "closenow-idle", "close-reader-blocked-echo",
 	"closeread-data-echo", "closeread-data-silent", "closeread-peer-close", "closeread-then-closenow",
 	"close-unmarshalable-reason", "close-invalid-code", "close-unmarshalable-reason-closeread",
-	"stream-write-pong-between-then-cancel", "cancel-during-stream-write", "emptyfin-read-then-cancel", "closeread-twice-closenow", "closeread-twice-data", "closeread-derived-contexts-closenow",
+	"stream-write-pong-between-then-cancel", "cancel-during-stream-write", "cancel-while-waiting-for-lock", "emptyfin-read-then-cancel", "closeread-twice-closenow", "closeread-twice-data", "closeread-derived-contexts-closenow",
 	"peer-close-then-close", "proto-error-then-close", "transport-failure-then-close", "abandoned-reader-close", "abandoned-writer-close", "netconn-close",
 }
 
@@ -282,6 +282,32 @@ func runLife(kv map[string]string) string {
 			raw.Stall(false)
 			closedObs = closedAfter()
 		}
+	case "cancel-while-waiting-for-lock":
+		// A blocks in a write on a stalled transport (holding the message and frame locks, no deadline); B's Write waits for the
+		// message lock and its context ends: B returns promptly with an error AND the connection is closed — which also frees A
+		raw.Stall(true)
+		aerr := make(chan error, 1)
+		go func() {
+			var err error
+			for i := 0; i < 64 && err == nil; i++ {
+				err = c.Write(bg, websocket.MessageBinary, make([]byte, 8192))
+			}
+			aerr <- err
+		}()
+		time.Sleep(80 * time.Millisecond)
+		ctx1, cancel1 := context.WithTimeout(bg, 100*time.Millisecond)
+		measureT(func() error { return c.Write(ctx1, websocket.MessageText, []byte("b")) }, 6*time.Second)
+		cancel1()
+		e.dur -= 100 * time.Millisecond
+		select {
+		case err := <-aerr:
+			e.step(err)
+			closedObs = "1"
+		case <-time.After(3 * time.Second):
+			e.res = append(e.res, "blocked")
+			closedObs = "0"
+		}
+		raw.Stall(false)
 	case "cancel-before-read", "cancel-before-write":
 		ctx1, cancel1 := context.WithCancel(bg)
 		cancel1()
@@ -290,7 +316,10 @@ func runLife(kv map[string]string) string {
 		} else {
 			measure(func() error { return c.Write(ctx1, websocket.MessageText, []byte("x")) })
 		}
-		closedObs = "any" // the select in mu.lock may pick ctx.Done (connection stays open) or the lock (then the done context closes it)
+		// the select in mu.lock may pick ctx.Done (the wait is given up: the timeout goroutine is asked to close) or the lock (then
+		// the done context is armed and closes the connection): closed either way, shortly afterwards
+		time.Sleep(50 * time.Millisecond)
+		closedObs = closedAfter()
 	case "close-stall":
 		// the peer stops after stallK bytes of a frame that arrived together with a complete one, and never answers
 		bound = "5s"
